@@ -2,15 +2,17 @@
   C11 helper lemmas: from the invariant to the judge's clauses; one in-domain event; whole schedules.
 -/
 import Upnp.Lemmas.C11Inv
+set_option linter.unusedSectionVars false
 namespace Upnp.C11
 open Upnp PyDict Upnp.C09 Upnp.C10
+variable [FloatOracle]
 
-def readSvc (sv : Svc) : List (Str × Option Val) := sv.vars.map fun v => (v.decl.name, v.st.stored.read)
+def readSvc (sv : Svc) : List (Str × Val) := sv.vars.map fun v => (v.decl.name, Stored.read v.st.stored)
 
-theorem readSvc_valsOf (sv : Svc) : readSvc sv = (valsOf sv).map fun p => (p.1.name, p.2.read) := by
-  simp [readSvc, valsOf, List.map_map, Function.comp_def]
+theorem readSvc_valsOf (sv : Svc) : readSvc sv = (valsOf sv).map fun p => (p.1.decl.name, Stored.read p.2) := by
+  simp [readSvc, valsOf, Var.blank, List.map_map, Function.comp_def]
 
-theorem valsOkAux_of (js : JS) (k : Nat) (dl : List (List Decl)) (sl : List Svc) (hlen : sl.length = dl.length)
+theorem valsOkAux_of (js : JS) (k : Nat) (dl : List (List Var)) (sl : List Svc) (hlen : sl.length = dl.length)
     (h : ∀ i ds sv, dl[i]? = some ds → sl[i]? = some sv → valsOf sv = ideal ds (notifiesFor js (k + i))) :
     valsOkAux js k dl (sl.map readSvc) = true := by
   induction dl generalizing sl k with
@@ -33,13 +35,13 @@ theorem valsOkAux_of (js : JS) (k : Nat) (dl : List (List Decl)) (sl : List Svc)
         rw [e] at this
         exact this
 
-theorem valsOk_of_inv (decls : List (List Decl)) (s : St) (js : JS) (inv : Inv decls s js) :
+theorem valsOk_of_inv (decls : List (List Var)) (s : St) (js : JS) (inv : Inv decls s js) :
     valsOk decls js (readVals s) = true := by
   have := valsOkAux_of js 0 decls s.h.svcs inv.svcs.1 (by
     intro i ds sv h1 h2; simpa using (inv.svcs.2 i ds sv h1 h2).1)
   exact this
 
-theorem cbsOkAux_of (js : JS) (k : Nat) (dl : List (List Decl)) (sl : List Svc) (hlen : sl.length = dl.length)
+theorem cbsOkAux_of (js : JS) (k : Nat) (dl : List (List Var)) (sl : List Svc) (hlen : sl.length = dl.length)
     (h : ∀ i ds sv, dl[i]? = some ds → sl[i]? = some sv → sv.events.length = (notifiesFor js (k + i)).length) :
     cbsOkAux js k (sl.map (·.events.length)) = true := by
   induction dl generalizing sl k with
@@ -60,7 +62,7 @@ theorem cbsOkAux_of (js : JS) (k : Nat) (dl : List (List Decl)) (sl : List Svc) 
         rw [e] at this
         exact this
 
-theorem cbsOk_of_inv (decls : List (List Decl)) (s : St) (js : JS) (inv : Inv decls s js) :
+theorem cbsOk_of_inv (decls : List (List Var)) (s : St) (js : JS) (inv : Inv decls s js) :
     cbsOk decls js (readCbs s) = true := by
   have := cbsOkAux_of js 0 decls s.h.svcs inv.svcs.1 (by
     intro i ds sv h1 h2; simpa using (inv.svcs.2 i ds sv h1 h2).2)
@@ -68,14 +70,14 @@ theorem cbsOk_of_inv (decls : List (List Decl)) (s : St) (js : JS) (inv : Inv de
   exact this
 
 /-- one in-domain event keeps the invariant and produces an acceptable answer -/
-theorem step_inv (cfg : Cfg) (decls : List (List Decl)) (hd : ∀ ds ∈ decls, declsWF ds) (s : St) (js : JS)
+theorem step_inv (cfg : Cfg) (decls : List (List Var)) (hd : ∀ ds ∈ decls, declsWF ds) (s : St) (js : JS)
     (inv : Inv decls s js) (e : Ev) (k : Nat) (hsc : evInScope js e = true) :
     Inv decls (step cfg s e k).1 (advance js e)
     ∧ outOk { ev := e, out := (step cfg s e k).2, vals := readVals (step cfg s e k).1,
               cbs := readCbs (step cfg s e k).1 } = true := by
   cases e with
   | start svc t =>
-    simp only [evInScope, Bool.not_eq_true'] at hsc
+    simp only [evInScope] at hsc
     obtain ⟨hc, hinv⟩ := inv_start decls s js inv svc t hsc
     simp only [step, hc, Bool.false_eq_true, if_false, advance, outOk]
     exact ⟨hinv, trivial⟩
@@ -83,11 +85,11 @@ theorem step_inv (cfg : Cfg) (decls : List (List Decl)) (hd : ∀ ds ∈ decls, 
     simp only [evInScope, Bool.or_eq_true, Bool.not_eq_true'] at hsc
     simp only [step, advance, outOk]
     by_cases hk : hdrsOk n.hdrs = true
-    · have hb : bodyWF n.body = true := by
+    · have hb : bodyWF n.body = true ∧ n.malformed = false := by
         rcases hsc with h | h
         · rw [hk] at h; cases h
-        · exact h
-      obtain ⟨hinv, hres⟩ := inv_notify decls hd s js inv n k hk hb
+        · simpa [Bool.and_eq_true, and_comm] using h
+      obtain ⟨hinv, hres⟩ := inv_notify decls hd s js inv n k hk hb.1 hb.2
       simp only [hk, if_true, hres]
       exact ⟨hinv, trivial⟩
     · have hk' : hdrsOk n.hdrs = false := by simpa using hk
@@ -107,7 +109,9 @@ theorem step_inv (cfg : Cfg) (decls : List (List Decl)) (hd : ∀ ds ∈ decls, 
         obtain ⟨g, hfin⟩ := subscribeFinish_grant s.h.rt svc t x th hsc.2
         have hx : x ∉ js.granted.map (·.2) := by simpa using hsc.1
         have := inv_respond_grant decls hd s js inv svc hmem x hx k
-        simp only [finishSubscribe, hfin, if_true]
+        have hE := replayE_eq { s.h with rt := PyDict.set s.h.rt x svc } x svc (get?_set_self _ _ _) _
+          (backlog_items_ok decls s js inv x hx) k
+        simp only [finishSubscribe, hfin, hE]
         exact this
       · have hr : ∀ x th, r ≠ .resp 200 (some x) th := fun x th e => hg ⟨x, th, e⟩
         obtain ⟨e, hfin⟩ := subscribeFinish_nogrant s.h.rt svc t r hr
@@ -133,7 +137,7 @@ theorem step_inv (cfg : Cfg) (decls : List (List Decl)) (hd : ∀ ds ∈ decls, 
       simp only [hnone, hp', Bool.false_eq_true, if_false]
       exact inv
 
-theorem schedules_from (cfg : Cfg) (decls : List (List Decl)) (hd : ∀ ds ∈ decls, declsWF ds) (evs : List Ev)
+theorem schedules_from (cfg : Cfg) (decls : List (List Var)) (hd : ∀ ds ∈ decls, declsWF ds) (evs : List Ev)
     (s : St) (js : JS) (k : Nat) (inv : Inv decls s js) :
     okFrom decls js (modelTrace cfg s evs k) = true := by
   induction evs generalizing s js k with
@@ -147,7 +151,7 @@ theorem schedules_from (cfg : Cfg) (decls : List (List Decl)) (hd : ∀ ds ∈ d
       rfl
     · rfl
 
-theorem inv_init (decls : List (List Decl)) : Inv decls (initSt decls) {} := by
+theorem inv_init (decls : List (List Var)) : Inv decls (initSt decls) {} := by
   refine { pendNodup := List.nodup_nil, pend := fun _ => rfl, pendStarted := fun _ h => (by cases h),
            grantedDone := fun _ h => (by cases h), grantedSvcNodup := List.nodup_nil, grantedSidNodup := List.nodup_nil,
            rt := fun _ => rfl, backlog := fun _ _ => rfl, seenWF := fun _ h => (by cases h), svcs := ?_ }
@@ -156,5 +160,6 @@ theorem inv_init (decls : List (List Decl)) : Inv decls (initSt decls) {} := by
   simp only [initSt, List.getElem?_map, h1, Option.map_some, Option.some.injEq] at h2
   subst h2
   simp [valsOf, initSvc, ideal, notifiesFor, grantedSid, List.map_map, Function.comp_def]
+  intro a _; exact ⟨rfl, rfl⟩
 
 end Upnp.C11
